@@ -510,9 +510,12 @@ def gen_scenario(rng):
         target = setup[-1]["out"]
         if rng.random() < 0.3:
             do({"op": "read", "h": target, "what": "fp"})
-        if rng.random() < 0.3:
+        if rng.random() < 0.4:
             infos = [Info(e) for e in w.live_entries()]
             do(g.g_view(w, infos))
+            if rng.random() < 0.6:
+                # a rename through the live column: the accessor map is stale when the assignment starts
+                do({"op": "setname", "h": setup[-1]["out"], "name": rng.choice(["x", "y", "zed", "a"])})
     e = w.handles.get(target)
     if e is None:
         return None
